@@ -42,7 +42,7 @@ def main():
                 "design_ref": m.get("design_ref", f"DESIGN.md section 5, {pid}"),
             },
             "level_note": (m.get("note", "") + " Thorough tier: the same case stream, much longer; every build variant stops "
-                           "starting new cases after a wall budget (VERIF_BUDGET_S seconds; default 600, and 900 for "
+                           "starting new cases after a wall budget (VERIF_BUDGET_S seconds; default 420, and 600 for "
                            "miri/asan/valgrind variants) - cases are pure functions of (seed, index), so the explored "
                            "prefix is reported exactly (evaluations, cases_not_started_wall_budget in the evidence).").strip(),
             "technique": m.get("technique", "runtime monitoring: seeded workload + oracle over observed executions"),
